@@ -92,7 +92,10 @@ func (r Resources) ContainsBucketPattern() bool {
 // Bucket resources should start with bucket name: arn:aws:s3:::MyBucket/*
 func (r Resources) Validate(bucket string) error {
 	for resource := range r {
-		if !strings.HasPrefix(resource, bucket) {
+		// the bucket component has to be this bucket, not just a name
+		// starting with it: "mybucket" doesn't cover "mybucket2/*"
+		name, _, _ := strings.Cut(resource, "/")
+		if name != bucket {
 			return policyErrInvalidResource
 		}
 	}
@@ -118,7 +121,9 @@ func (r Resources) Match(pattern, input string) bool {
 	starIdx, matchIdx := -1, 0
 
 	for sIdx < len(input) {
-		if pIdx < len(pattern) && (pattern[pIdx] == '?' || pattern[pIdx] == input[sIdx]) {
+		// a '*' in the pattern is always a wildcard, also when the input
+		// happens to have a literal '*' at that position
+		if pIdx < len(pattern) && pattern[pIdx] != '*' && (pattern[pIdx] == '?' || pattern[pIdx] == input[sIdx]) {
 			sIdx++
 			pIdx++
 		} else if pIdx < len(pattern) && pattern[pIdx] == '*' {
